@@ -12,6 +12,12 @@ BUILT = {
  "C12": ("Explicit-state BFS to a fixpoint over the real LSP server on the property's event alphabet (23 events: didOpen/didChange with 0/1/2 changes, semanticTokens for open/unopened/non-file URIs, requests and notifications for unimplemented methods, client responses, malformed params, non-file and unopened URIs), state = complete server state + set of unanswered request kinds; plus every sequence up to length 2 (thorough 3) without de-duplication; every history ends with shutdown + exit. Invariants: server alive after every event (probe barrier, 20 s watchdog), every request answered exactly once with its id, unimplemented methods get an error, no unsolicited response, clean termination. Every single event and every spanning-tree history (thorough: every pair) is replayed over stdio against the real binary, including its exit status.",
          "Trusts: sequential server loop (a request is answered by the time the next request is), lsp-server framing. Messages are well-formed JSON-RPC.",
          "explicit-state model checking of the real server (BFS to a fixpoint + exhaustive bounded sequences) with invariants on every transition and trace conformance against the binary"),
+ "C13": ("A catalogue of 30 file sets (valid, interdependent, each semantic rule class, lexical/syntax faults, valid+faulty mixtures, empty file, empty directory, missing path, dangling symlink, sub-directory, foreign extension) x every presentation (file list in every argument order; directory; every split into directory + listed files with the directory first or last) x {check, echo, tokenize} on the real hook-free binary. Oracles: exit 0 <=> OK line <=> no coded diagnostic; non-zero exit => at least one error[Pnnnn] and no OK; the verdict (and, without I/O problems, the code multiset) is the same for every presentation of a set; echo/tokenize exit 0 exactly when every file parses/tokenizes in-process.",
+         "Trusts: the stderr parser (ANSI stripped, error[P…] headers and first location block). Runs as root, so permission-denied files cannot be produced; unreadable paths are represented by missing paths, dangling symlinks and sub-directories.",
+         "exhaustive enumeration of argument presentations (all orders, all directory/list splits) of a file-set catalogue on the real binary"),
+ "C14": ("(1) 12 programs with non-ASCII text in comments, STRING and WSTRING literals (valid, and with a semantic/syntax/lexical fault after the non-ASCII text on the same line and on a later line) x 5 encodings (UTF-8, UTF-8+BOM, UTF-16LE+BOM, UTF-16BE+BOM, Windows-1252) through `ironplcc check` and `tokenize`: verdict, codes and line:column must be identical; (2) every byte value 0x00-0xFF x 4 contexts (comment, string, between tokens, inside an identifier) — 1,024 files, exhaustive — through the binary (no crash, consistent verdict) and in-process through FileBackedProject::push + semantic + tokenize (every label inside the decoded text on character boundaries); (3) all 1-byte files, all 2-byte files (quick: 8 leading bytes x 256; thorough: all 65,536), BOM-prefixed files, in-process and through the binary.",
+         "Trusts: the harness encoders; Windows-1252 bytes of the chosen characters are asserted not to be valid UTF-8 (otherwise the intended decoding would be ambiguous).",
+         "exhaustive enumeration of byte values x contexts and of short files, plus encoding orbits of a program catalogue, on the real binary and in-process"),
  "C15": ("Every base lexeme program x {canonical, line-broken, every trivia menu member (18: blanks, tabs, LF, CRLF, form feed, 9 comment shapes incl. multi-line, CRLF-inside, non-ASCII/astral) at every gap at once, each member at each single non-glued gap (quick: every third member per gap, rotated; thorough: all), leading/trailing trivia, an invalid character at 3 positions} goes through didOpen + semanticTokens/full on the real server; the data are decoded by the LSP relative rule and compared token by token with the generator's own lexeme table (line, UTF-16 column, UTF-16 length, class -> legend). Token requests after edit histories (text pairs x didChange/didOpen x other document open) must equal a fresh server's. A systematic subset is replayed over stdio against the real binary.",
          "Trusts: the harness lexeme table (positions computed while spelling, never by lexing); literal fragments (T, ms) are not judged; identifiers and comments must be reported, numbers/strings/punctuation must not. UTF-16 columns; LF/CRLF/CR line ends.",
          "exhaustive enumeration of documents (lexeme programs x trivia placements) on the real server against an independent lexeme table; bounded exhaustive histories; trace conformance against the binary"),
